@@ -20,15 +20,25 @@
    * rejected: unknown mnemonic, wrong operand count, and -- with the right count -- the first operand (left to right) whose
      converter rejects it decides the diagnostic: wrong kind = DArgType, unknown register = DNoSuchRegister, number outside
      i32 / u32 = DValueRange (the C04_rejects_ theorems); no statement panics (C04_never_panics).
+   * post-conversion checks (section 5; Arm/AsmPostChecks.v, Arm/AsmPostChecksStmt.v): `stmt_outcome` = operand processing
+     followed by the encoder model (an encoder error is the diagnostic DEncode, nothing is written).  For EVERY operand value
+     (unbounded Z, all registers): a statement whose operands satisfy the ARMv6-M operand rule of its mnemonic
+     (`operand_rule`: register classes, immediate ranges and scaling, list contents -- proved to be exactly the domain of the
+     ARMv6-M table) emits exactly the instruction written with the table's halfwords; every other one is a diagnostic,
+     never an instruction: C04_operand_rule_decides and, family by family, the checks of ArmInstr::assemble
+     (C04_number_range BKPT/SVC/UDF, C04_rsbs_zero, C04_flag_names, C04_ldrs_register_offset, C04_branch_target,
+     C04_bl_target, C04_literal_target) and of the encoder (C04_shift_amount, C04_addsub_immediate, C04_add_sp, C04_sub_sp,
+     C04_mov_cmp_immediate, C04_load_store_offset, C04_push_pop_list, C04_ldm_stm_list, C04_low_registers,
+     C04_branch_register, C04_special_register).
    NOT proved here: (a) that assemble_stmt IS what src/arm6m/mod.rs does -- the model is compared with the real assembler by
-   the C04 / C19 correspondence streams; (b) invariance of REJECTED statements under respelling; (c) for statements that
-   convert but fail a post-conversion check (BKPT/SVC/UDF range, RSBS #0, flag name, LDRSB offset kind, PC-relative range /
-   alignment) the diagnostic class is proved only for the PC-relative checks (C04_branch_offset, C04_literal_offset);
-   (d) placing the bytes at the statement's address in the image is C05's business. *)
-From Coq Require Import ZArith NArith List String.
+   the C04 / C19 correspondence streams; (b) invariance of REJECTED statements under respelling; (c) placing the bytes at
+   the statement's address in the image is C05's business.  Accepted although UNPREDICTABLE in the manual: LDM / STM with an
+   empty register list (DESIGN.md section 4: pinned by an existing test of trion, listed in the table). *)
+From Coq Require Import ZArith NArith List Bool String.
 From Trion Require Import Text.Types Text.ParseModel Text.Render Text.ParseProofs Text.ShowSpec Expr.I64 Expr.EvalModel Expr.Denote Expr.C08Sound
   Arm.Instr Arm.EncodeModel Arm.Armv6mSpec Arm.CodecCheck Arm.DisplayModel Arm.DisplayArgs Arm.AsmStmtModel Arm.AsmStmtProofs Arm.AsmEvalLink
-  Arm.AsmOperands Arm.AsmRejects Arm.AsmSpelling Arm.AsmImmediates Arm.AsmRespell Arm.AsmNoWrap Arm.AsmText Bin.TextRoundtrip.
+  Arm.AsmOperands Arm.AsmRejects Arm.AsmSpelling Arm.AsmImmediates Arm.AsmRespell Arm.AsmNoWrap Arm.AsmText Bin.TextRoundtrip
+  Arm.AsmPostChecks Arm.AsmPostChecksStmt.
 Import ListNotations.
 Open Scope N_scope.
 
@@ -198,6 +208,193 @@ Theorem C04_text_respelled : forall lk local i addr hws name args' ws seps,
   asm_text lk local addr (showw ws seps) = Some i.
 Proof. exact respelled_text_assembles. Qed.
 
+(* ------------------------------------------------------------------------------------------------------------------ *)
+(* 5. the checks made after the operands are converted.  stmt_outcome ev local addr name args = Emits i hws | Rejects d |
+   Defers c | Panics: operand processing (assemble_stmt), then the encoder; in the vocabulary of the model: *)
+Theorem C04_outcome_meaning : forall ev local addr name args,
+  match stmt_outcome ev local addr name args with
+  | Emits i hws => exists st, assemble_stmt ev local addr name args = COk i st /\ enc i = EncOk hws
+  | Rejects d => (exists st, assemble_stmt ev local addr name args = CDiag d st) \/
+                 (d = DEncode /\ exists i st, assemble_stmt ev local addr name args = COk i st /\ enc_bytes i 4 = EbUnrep)
+  | Defers c => exists st, assemble_stmt ev local addr name args = CDefer c st
+  | Panics => False
+  end.
+Proof. exact outcome_meaning. Qed.
+
+(* every instruction value i (all registers, unbounded immediates), every statement whose arguments are read as the operands
+   of i (stored as written: everything but the PC-relative targets): the ARMv6-M operand rule of i decides -- it holds:
+   exactly i with the table's halfwords; it fails: a diagnostic (DValueRange if a value does not fit its type), never an
+   instruction.  emits_table o i := exists hws, armv6m_enc i = Some hws /\ o = Emits i hws *)
+Theorem C04_operand_rule_decides : forall ev local addr name i ops args,
+  In (upper_str name) (mnemonic_names i) -> In ops (direct_forms i addr) -> Forall2 (reads ev) ops args ->
+  if operand_rule i then emits_table (stmt_outcome ev local addr name args) i
+  else stmt_outcome ev local addr name args = Rejects (if in_types i then DEncode else DValueRange).
+Proof. exact rule_decides. Qed.
+
+(* the operand rule (written for reading, AsmPostChecks.operand_rule) is exactly the domain of the ARMv6-M table *)
+Theorem C04_operand_rule_is_table : forall i, wf_instr i -> (operand_rule i = true <-> armv6m_enc i <> None).
+Proof. exact rule_is_table. Qed.
+
+(* 5a. checks of ArmInstr::assemble.  BKPT / SVC / UDF.N #0..255, UDF.W #0..65535: any other number is DValueRange *)
+Theorem C04_number_range : forall ev local addr name mk hi a v,
+  In (upper_str name, mk, hi) [($"BKPT", Bkpt, 255); ($"SVC", Svc, 255); ($"UDF.N", Udf, 255); ($"UDF.W", Udfw, 65535)]%Z ->
+  ev a = (AConst v, SComplete) ->
+  if zin v 0 hi then emits_table (stmt_outcome ev local addr name [a]) (mk (Z.to_N v))
+  else stmt_outcome ev local addr name [a] = Rejects DValueRange.
+Proof. exact number_checked. Qed.
+
+(* RSBS Rd, Rn, #0: any other number is DValueRange *)
+Theorem C04_rsbs_zero : forall ev local addr name sd sn a d n v,
+  upper_str name = $"RSBS" -> regl sd = Some d -> regl sn = Some n -> ev a = (AConst v, SComplete) ->
+  let out := stmt_outcome ev local addr name [AIdent sd; AIdent sn; a] in
+  if Z.eqb v 0 then (if low d && low n then emits_table out (Rsb d n) else out = Rejects DEncode)
+  else out = Rejects DValueRange.
+Proof. exact rsbs_zero. Qed.
+
+(* CPSIE / CPSID i; DMB / DSB / ISB SY: the flag in any letter case, any other identifier is DValueRange *)
+Theorem C04_flag_names : forall ev local addr name lit i s,
+  In (upper_str name, lit, i)
+     [($"CPSIE", "i", Cps true); ($"CPSID", "i", Cps false); ($"DMB", "SY", Dmb); ($"DSB", "SY", Dsb); ($"ISB", "SY", Isb)]%string ->
+  (upper_str s = upper_str ($ lit) -> emits_table (stmt_outcome ev local addr name [AIdent s]) i) /\
+  (upper_str s <> upper_str ($ lit) -> stmt_outcome ev local addr name [AIdent s] = Rejects DValueRange).
+Proof. exact flag_checked. Qed.
+
+(* LDRSB / LDRSH Rt, [Rn + Rm]: an immediate offset is DValueRange *)
+Theorem C04_ldrs_register_offset : forall ev local addr name mk sd d a inner b x,
+  In (upper_str name, mk) [($"LDRSB", Ldrsb); ($"LDRSH", Ldrsh)] -> regl sd = Some d ->
+  ev a = (AAddr inner, SComplete) -> addr_off inner = inl (b, Some x) ->
+  let out := stmt_outcome ev local addr name [AIdent sd; a] in
+  match x with
+  | Reg o => if low d && low b && low o then emits_table out (mk d b o) else out = Rejects DEncode
+  | Imm _ => out = Rejects DValueRange
+  end.
+Proof. exact ldrs_register_offset. Qed.
+
+(* B / B<c> target (any number t): outside the address space DValueRange; offset t - (address + 4) outside -2048..2046
+   (B) / -256..254 (B<c>) DRange; odd DAlignment; otherwise exactly that offset *)
+Theorem C04_branch_target : forall ev local addr name c a t,
+  In (upper_str name) (mnemonic_names (B c 0)) -> ev a = (AConst t, SComplete) ->
+  let off := (t - (Z.of_N addr + 4))%Z in
+  let out := stmt_outcome ev local addr name [a] in
+  if negb (zin t 0 4294967295) then out = Rejects DValueRange
+  else if negb (zin off (fst (branch_range c)) (snd (branch_range c))) then out = Rejects DRange
+  else if negb (mult off 2) then out = Rejects DAlignment
+  else emits_table out (B c off).
+Proof. exact branch_target_checked. Qed.
+
+(* BL target: offset -2^24 .. 2^24 - 1 and even *)
+Theorem C04_bl_target : forall ev local addr name a t,
+  upper_str name = $"BL" -> ev a = (AConst t, SComplete) ->
+  let off := (t - (Z.of_N addr + 4))%Z in
+  let out := stmt_outcome ev local addr name [a] in
+  if negb (zin t 0 4294967295) then out = Rejects DValueRange
+  else if negb (zin off (-16777216) 16777215) then out = Rejects DRange
+  else if negb (mult off 2) then out = Rejects DAlignment
+  else emits_table out (Bl off).
+Proof. exact bl_target_checked. Qed.
+
+(* ADR Rd, target / LDR Rt, target: offset from the word-aligned statement address + 4 in 0..1020, a multiple of 4, Rd low *)
+Theorem C04_literal_target : forall ev local addr name mk sd d a t,
+  In (upper_str name, mk) [($"ADR", fun off => Adr d (Z.to_N off)); ($"LDR", fun off => Ldr d PC (Imm off))] ->
+  regl sd = Some d -> ev a = (AConst t, SComplete) ->
+  let off := (t - (Z.of_N (N.land addr 0xFFFFFFFC) + 4))%Z in
+  let out := stmt_outcome ev local addr name [AIdent sd; a] in
+  if negb (zin t 0 4294967295) then out = Rejects DValueRange
+  else if negb (zin off 0 1020) then out = Rejects DRange
+  else if negb (mult off 4) then out = Rejects DAlignment
+  else if low d then emits_table out (mk off) else out = Rejects DEncode.
+Proof. exact literal_target_checked. Qed.
+
+(* 5b. checks of the encoder, by mnemonic family (instances of C04_operand_rule_decides).  Shift amounts *)
+Theorem C04_shift_amount : forall ev local addr name mk hi sd sm a d m v,
+  In (upper_str name, mk, hi) [($"LSLS", Lsl, 31); ($"LSRS", Lsr, 32); ($"ASRS", Asr, 32)]%Z ->
+  regl sd = Some d -> regl sm = Some m -> ev a = (AConst v, SComplete) ->
+  let out := stmt_outcome ev local addr name [AIdent sd; AIdent sm; a] in
+  if low d && low m && zin v 1 hi then emits_table out (mk d m (Imm v))
+  else out = Rejects (if i32b v then DEncode else DValueRange).
+Proof. exact shift_amount_checked. Qed.
+
+(* ADDS / SUBS Rd, Rn, #imm: 0..255 when Rd = Rn, 0..7 otherwise; low registers *)
+Theorem C04_addsub_immediate : forall ev local addr name mk sd sn a d n v,
+  In (upper_str name, mk) [($"ADDS", Add true); ($"SUBS", Sub true)] ->
+  regl sd = Some d -> regl sn = Some n -> ev a = (AConst v, SComplete) ->
+  let out := stmt_outcome ev local addr name [AIdent sd; AIdent sn; a] in
+  if (if same d n then low d && zin v 0 255 else low d && low n && zin v 0 7) then emits_table out (mk d n (Imm v))
+  else out = Rejects (if i32b v then DEncode else DValueRange).
+Proof. exact addsub_immediate_checked. Qed.
+
+(* ADD Rd, SP, #0..1020 step 4 (Rd low) | ADD SP, SP, #0..508 step 4;  SUB SP, SP, #0..508 step 4 *)
+Theorem C04_add_sp : forall ev local addr name sd sn a d n v,
+  upper_str name = $"ADD" -> regl sd = Some d -> regl sn = Some n -> ev a = (AConst v, SComplete) ->
+  let out := stmt_outcome ev local addr name [AIdent sd; AIdent sn; a] in
+  if isSP n && mult v 4 && (if isSP d then zin v 0 508 else low d && zin v 0 1020) then emits_table out (Add false d n (Imm v))
+  else out = Rejects (if i32b v then DEncode else DValueRange).
+Proof. exact add_sp_checked. Qed.
+Theorem C04_sub_sp : forall ev local addr name sd sn a d n v,
+  upper_str name = $"SUB" -> regl sd = Some d -> regl sn = Some n -> ev a = (AConst v, SComplete) ->
+  let out := stmt_outcome ev local addr name [AIdent sd; AIdent sn; a] in
+  if isSP d && isSP n && mult v 4 && zin v 0 508 then emits_table out (Sub false d n (Imm v))
+  else out = Rejects (if i32b v then DEncode else DValueRange).
+Proof. exact sub_sp_checked. Qed.
+
+(* MOVS / CMP Rd, #0..255 (Rd low); MOV has no immediate form *)
+Theorem C04_mov_cmp_immediate : forall ev local addr name mk has sd a d v,
+  In (upper_str name, mk, has) [($"MOVS", Mov true, true); ($"CMP", Cmp, true); ($"MOV", Mov false, false)] ->
+  regl sd = Some d -> ev a = (AConst v, SComplete) ->
+  let out := stmt_outcome ev local addr name [AIdent sd; a] in
+  if has && (low d && zin v 0 255) then emits_table out (mk d (Imm v))
+  else out = Rejects (if i32b v then DEncode else DValueRange).
+Proof. exact mov_cmp_immediate_checked. Qed.
+
+(* loads / stores [Rn + #imm]: word 0..124 step 4 (SP-relative, and PC-relative for LDR: 0..1020 step 4), halfword 0..62 step 2,
+   byte 0..31; low registers (word_load_rule, word_store_rule, half_rule, byte_rule in Arm/AsmPostChecksStmt.v) *)
+Theorem C04_load_store_offset : forall ev local addr name mk rule st a inner t n v,
+  In (upper_str name, mk, rule) [($"LDR", Ldr, word_load_rule); ($"STR", Str, word_store_rule); ($"LDRH", Ldrh, half_rule);
+                                 ($"STRH", Strh, half_rule); ($"LDRB", Ldrb, byte_rule); ($"STRB", Strb, byte_rule)] ->
+  regl st = Some t -> ev a = (AAddr inner, SComplete) -> addr_off inner = inl (n, Some (Imm v)) ->
+  let out := stmt_outcome ev local addr name [AIdent st; a] in
+  if rule t n v then emits_table out (mk t n (Imm v)) else out = Rejects DEncode.
+Proof. exact offset_checked. Qed.
+
+(* PUSH {R0-R7, LR} / POP {R0-R7, PC}: by the registers NAMED (any spelling, order, repetitions), not empty *)
+Theorem C04_push_pop_list : forall ev local addr name mk extra names rs,
+  In (upper_str name, mk, extra) [($"PUSH", Push, LR); ($"POP", Pop, PC)] ->
+  Forall2 (fun s r => regl s = Some r) names rs ->
+  let out := stmt_outcome ev local addr name [ASeq (map AIdent names)] in
+  if negb (isnil rs) && forallb (fun r => low r || same r extra) rs then emits_table out (mk (mask_of rs))
+  else out = Rejects DEncode.
+Proof. exact push_pop_list_checked. Qed.
+
+(* LDM / STM Rn, {R0-R7}: Rn low *)
+Theorem C04_ldm_stm_list : forall ev local addr name mk sn n names rs,
+  In (upper_str name, mk) [($"LDM", Ldm); ($"STM", Stm)] -> regl sn = Some n ->
+  Forall2 (fun s r => regl s = Some r) names rs ->
+  let out := stmt_outcome ev local addr name [AIdent sn; ASeq (map AIdent names)] in
+  if low n && forallb low rs then emits_table out (mk n (mask_of rs)) else out = Rejects DEncode.
+Proof. exact ldm_stm_list_checked. Qed.
+
+(* register classes: two-register data processing takes R0-R7; BX / BLX any register but PC; MRS / MSR neither SP nor PC *)
+Theorem C04_low_registers : forall ev local addr name mk sd sm d m,
+  In (upper_str name, mk) low_pair_stmts -> regl sd = Some d -> regl sm = Some m ->
+  let out := stmt_outcome ev local addr name [AIdent sd; AIdent sm] in
+  if low d && low m then emits_table out (mk d m) else out = Rejects DEncode.
+Proof. exact low_registers_checked. Qed.
+Theorem C04_branch_register : forall ev local addr name mk sm m,
+  In (upper_str name, mk) [($"BX", Bx); ($"BLX", Blx)] -> regl sm = Some m ->
+  let out := stmt_outcome ev local addr name [AIdent sm] in
+  if negb (isPC m) then emits_table out (mk m) else out = Rejects DEncode.
+Proof. exact branch_register_checked. Qed.
+Theorem C04_special_register : forall ev local addr name sr ss r s,
+  regl sr = Some r -> sysl ss = Some s ->
+  (upper_str name = $"MRS" ->
+     let out := stmt_outcome ev local addr name [AIdent sr; AIdent ss] in
+     if negb (isSP r) && negb (isPC r) then emits_table out (Mrs r s) else out = Rejects DEncode) /\
+  (upper_str name = $"MSR" ->
+     let out := stmt_outcome ev local addr name [AIdent ss; AIdent sr] in
+     if negb (isSP r) && negb (isPC r) then emits_table out (Msr s r) else out = Rejects DEncode).
+Proof. exact special_register_checked. Qed.
+
+Local Open Scope string_scope.
 Theorem C04_examples :
   regl (bytes_of_string "r13"%string) = Some SP /\ regl (bytes_of_string "Lr"%string) = Some LR /\ regl (bytes_of_string "R16"%string) = None /\
   template (bytes_of_string "bics"%string) = Some (Bic R0 R0) /\ template (bytes_of_string "BICSS"%string) = None /\
@@ -218,5 +415,29 @@ Theorem C04_examples :
   dg "beq"%string [AConst 0x204] = Some DRange /\ dg "beq"%string [AConst 0x107] = Some DAlignment /\
   (* converts, but the table has no row: the encoder rejects, nothing is truncated *)
   conv_val (assemble_stmt (ev_of lk) false 0x100 (bytes_of_string "movs"%string) [AIdent (bytes_of_string "r0"%string); AConst 256])
-    = Some (Mov true R0 (Imm 256)) /\ enc (Mov true R0 (Imm 256)) = EncUnrep.
+    = Some (Mov true R0 (Imm 256)) /\ enc (Mov true R0 (Imm 256)) = EncUnrep /\
+  (* post-conversion checks: at the edge of each rule, and just beyond *)
+  let go name args := stmt_outcome (ev_of lk) false 0x100 (bytes_of_string name) args in
+  let r (s : string) := AIdent (bytes_of_string s) in
+  go "bkpt"%string [AConst 255] = Emits (Bkpt 255) [0xBEFF] /\ go "bkpt"%string [AConst 256] = Rejects DValueRange /\
+  go "BKPT"%string [ANeg (AConst 1)] = Rejects DValueRange /\ go "svc"%string [AConst 256] = Rejects DValueRange /\
+  go "udf.w"%string [AConst 65535] = Emits (Udfw 65535) [0xF7FF; 0xAFFF] /\ go "udf.w"%string [AConst 65536] = Rejects DValueRange /\
+  go "rsbs"%string [r "r0"; r "r1"; AConst 0] = Emits (Rsb R0 R1) [0x4248] /\ go "rsbs"%string [r "r0"; r "r1"; AConst 1] = Rejects DValueRange /\
+  go "cpsid"%string [r "I"] = Emits (Cps false) [0xB672] /\ go "cpsie"%string [r "f"] = Rejects DValueRange /\
+  go "dmb"%string [r "ish"] = Rejects DValueRange /\
+  go "ldrsb"%string [r "r0"; AAddr (AAdd (r "r1") (AConst 4))] = Rejects DValueRange /\
+  go "lsrs"%string [r "r0"; r "r1"; AConst 32] = Emits (Lsr R0 R1 (Imm 32)) [0x0808] /\
+  go "lsls"%string [r "r0"; r "r1"; AConst 32] = Rejects DEncode /\ go "lsls"%string [r "r0"; r "r1"; AConst 0] = Rejects DEncode /\
+  go "adds"%string [r "r0"; r "r0"; AConst 255] = Emits (Add true R0 R0 (Imm 255)) [0x30FF] /\
+  go "adds"%string [r "r0"; r "r1"; AConst 8] = Rejects DEncode /\
+  go "add"%string [r "r0"; r "sp"; AConst 1020] = Emits (Add false R0 SP (Imm 1020)) [0xA8FF] /\
+  go "add"%string [r "r0"; r "sp"; AConst 1022] = Rejects DEncode /\ go "add"%string [r "sp"; r "sp"; AConst 512] = Rejects DEncode /\
+  go "ldr"%string [r "r0"; AAddr (AAdd (r "sp") (AConst 1020))] = Emits (Ldr R0 SP (Imm 1020)) [0x98FF] /\
+  go "ldr"%string [r "r0"; AAddr (AAdd (r "r1") (AConst 128))] = Rejects DEncode /\
+  go "ldrh"%string [r "r0"; AAddr (AAdd (r "r1") (AConst 3))] = Rejects DEncode /\
+  go "push"%string [ASeq [r "lr"; r "r0"]] = Emits (Push 16385) [0xB501] /\ go "push"%string [ASeq [r "r8"]] = Rejects DEncode /\
+  go "pop"%string [ASeq []] = Rejects DEncode /\ go "adcs"%string [r "r8"; r "r0"] = Rejects DEncode /\
+  go "bx"%string [r "pc"] = Rejects DEncode /\ go "mrs"%string [r "sp"; r "apsr"] = Rejects DEncode /\
+  go "b"%string [AConst 0x904] = Rejects DRange /\ go "bl"%string [AConst 0x1000103] = Rejects DAlignment /\
+  go "adr"%string [r "r8"; AConst 0x108] = Rejects DEncode /\ go "ldr"%string [r "r0"; AConst 0x106] = Rejects DAlignment.
 Proof. vm_compute. repeat split. Qed.
